@@ -212,6 +212,20 @@ def rule_dec(ctx, R):
     sw0 = switches_on(root, lambda d: d[0] == "discr" and d[1][0] == "call" and core.callee_base(d[1][1]) == "core::ops::Try::branch"
                       and d[1][2][0][0] == "call" and d[1][2][0][3] == psites[0])
     ctx.check(len(sw0) == 1, "DEC", b, "end-of-input-none", b.span, "an exhausted source must end the iteration (first pull propagated with `?`)")
+    # the decoder never gives up early and never looks at its source other than by pulling: every None exit is the
+    # exhausted first pull, and `next` is the only thing called on self.inner
+    others = [s["key"] for s in S.calls if s["args"] and any(m(F(Par(1), "inner"), a) for a in s["args"])
+              and core.callee_base(s["key"]) != ITER_NEXT and core.callee_base(s["key"]) not in core.IDENTITY_KEYS]
+    ctx.check(not others, "DEC", b, "source-only-pulled", b.span,
+              "the decoder may only pull from its source (no size_hint/peek/len: the result must not depend on what the source "
+              "claims about its remaining length); found %s" % others)
+    if len(sw0) == 1:
+        brk = [tb for val, tb in sw0[0][1]["targets"] if val == 1] or [sw0[0][1]["otherwise"]]
+        nones = [bi for bi, si, st in b.stmts() if st["k"] == "assign" and st["lhs"]["local"] == 0 and not st["lhs"]["proj"] and
+                 st["rv"]["k"] == "aggregate" and st["rv"].get("variant") == "None"]
+        resid = [s["bb"] for s in S.calls if core.callee_base(s["key"]) == "core::ops::FromResidual::from_residual" and s["tj"]["dest"]["local"] == 0]
+        ctx.check(all(b.edge_guards((sw0[0][0], brk[0]), x) for x in nones + resid) and bool(nones + resid), "DEC", b, "none-only-when-exhausted", b.span,
+                  "the decoder returns None only when the source is exhausted at a character boundary")
     first = F(P(C(anykey, ANY, site=psites[0])), "1", "(tuple)")
     # threshold guards on the first byte, normalised to `first < c`
     guards = {}
